@@ -29,6 +29,9 @@ type vfMicroScript struct {
 	Setup []string
 	// Steps are the environment's actions during the explored part.
 	Steps []string
+	// SettleAck: at the end every target stream is live again and the source's last message was a watermark-only
+	// batch: the settled oracle applies (reported under the property of the run)
+	SettleAck bool
 }
 
 func vfRoutingMicroScripts(property string) []vfMicroScript {
@@ -40,6 +43,7 @@ func vfRoutingMicroScripts(property string) []vfMicroScript {
 		return &vfRouteScenario{Name: name, NS: 1, NT: 2, Scripts: two, InitHigh: 5, MaxWM: 1, MaxRepeat: 1, InOrder: true, MaxFaults: faults}
 	}
 	hung := func(sc *vfRouteScenario) *vfRouteScenario { sc.HungSource = true; return sc }
+	wmStep := func(sc *vfRouteScenario) *vfRouteScenario { sc.WMStep = 3; return sc }
 	twoProxies := func(sc *vfRouteScenario) *vfRouteScenario {
 		sc.Proxies, sc.PlaceT, sc.PlaceS = 2, []int{0, 1}, []int{0}
 		return sc
@@ -70,8 +74,8 @@ func vfRoutingMicroScripts(property string) []vfMicroScript {
 				Steps: []string{"breakT:2", "emit:1", "emit:1", "openT:2"}},
 			// a watermark-only batch is broadcast while a target stream is shutting down (its hand-off channel is closed but
 			// still registered for a moment), then the shard reconnects
-			{Name: "watermark-broadcast-while-target-stream-shuts-down", Scenario: base("micro-c08-W", 0), Setup: []string{"openT:1", "openT:2", "openS:1", "wm:1"},
-				Steps: []string{"breakT:1", "wm:1", "openT:1"}},
+			{Name: "watermark-broadcast-while-target-stream-shuts-down", Scenario: wmStep(base("micro-c08-W", 0)), Setup: []string{"openT:1", "openT:2", "openS:1", "wm:1"},
+				Steps: []string{"breakT:1", "wm:1", "openT:1"}, SettleAck: true},
 			// the receiver holds a pending watermark when target shard 1 registers late (it gets the replay), then that shard
 			// reconnects while its stream is alive: the newest incarnation is owed the replay again
 			{Name: "late-target-got-the-replay-then-reconnects", Scenario: base("micro-c08-L", 0), Setup: []string{"openT:2", "openS:1", "wm:1", "openT:1", "@baseline"},
@@ -257,6 +261,14 @@ func vfRoutingMicroBody(ms vfMicroScript, property string) func(s *vrt.Sched) (s
 			if baseline != nil {
 				e.checkRegistry(baseline)
 				e.checkWatermarkReplay()
+			}
+			if ms.SettleAck {
+				// the incarnation that registered while the watermark was being broadcast is owed THAT watermark (by the
+				// broadcast or by the replay): once every target has acknowledged what it received, the source is
+				// acknowledged up to it
+				e.settleProp = "C08"
+				e.checkSettled(synctest.Wait)
+				e.settleProp = ""
 			}
 			// no worker outlives its stream: every goroutine started by a handler that has returned is gone
 			ended := map[string]bool{}
@@ -452,6 +464,10 @@ func (e *vfRouteExec) checkWatermarkReplay() {
 // that reached every target must have been acknowledged up to that watermark - the acknowledgement may not depend
 // on a later repetition of the watermark.
 func (e *vfRouteExec) checkSettled(wait func()) {
+	prop, pre := "C03", ""
+	if e.settleProp != "" {
+		prop, pre = e.settleProp, "settled/"
+	}
 	for _, t := range e.tgt {
 		ts := t.cur()
 		if ts == nil || ts.broken || ts.returned {
@@ -491,7 +507,7 @@ func (e *vfRouteExec) checkSettled(wait func()) {
 				last = p.acks[n-1]
 			}
 			if lastTask >= 0 && last < lastTask {
-				e.violate("C03", "ack-incomplete-although-the-only-target-confirmed-every-task", fmt.Sprintf("source %d sent tasks up to %d, its only target has completed and acknowledged everything, nothing is in flight, yet the last acknowledgement the source received is %d (acks %v): an acknowledged entry was not translated back", s.idx, lastTask, last, p.acks))
+				e.violate(prop, pre+"ack-incomplete-although-the-only-target-confirmed-every-task", fmt.Sprintf("source %d sent tasks up to %d, its only target has completed and acknowledged everything, nothing is in flight, yet the last acknowledgement the source received is %d (acks %v): an acknowledged entry was not translated back", s.idx, lastTask, last, p.acks))
 			}
 		}
 	}
@@ -506,7 +522,7 @@ func (e *vfRouteExec) checkSettled(wait func()) {
 			last = p.acks[n-1]
 		}
 		if last != s.curHigh {
-			e.violate("C03", "ack-incomplete-although-every-target-confirmed-everything", fmt.Sprintf("source %d sent its watermark %d to every target, every target has completed and acknowledged everything it received, nothing is in flight, yet the last acknowledgement the source received is %d (acks %v)", s.idx, s.curHigh, last, p.acks))
+			e.violate(prop, pre+"ack-incomplete-although-every-target-confirmed-everything", fmt.Sprintf("source %d sent its watermark %d to every target, every target has completed and acknowledged everything it received, nothing is in flight, yet the last acknowledgement the source received is %d (acks %v)", s.idx, s.curHigh, last, p.acks))
 		}
 	}
 }
